@@ -2,6 +2,7 @@ import ZV.Model.C20
 import ZV.Proofs.C20
 import ZV.Generated.C20
 import ZV.Model.C18Time
+import ZV.Proofs.C20X4
 /-!
   C20 — permissive parsing is a conservative extension of strict parsing.
 
@@ -11,88 +12,13 @@ import ZV.Model.C18Time
 
   `inventory_accounted` (T1): the syntactic uses of `AllowPermissiveParsing` in asn1.go and x509.go, extracted from the
   current tree, are exactly the sites the verification accounts for; a new, moved or re-shaped use breaks it.
-  The certificate level (`ParseCertificate`) is checked by the T3 oracle only (see tools/props/C20.json).
+  The x509 level (second half of this file): every site of the flag in x509.go has a Lean model (`ZV.Model.C20X`) and a
+  `perm_extends_<site>` theorem; `perm_extends_parseCertificate` composes them for the result fields they feed, with
+  finding D31 (keyUsage / basicConstraints / self-signature) as the explicit, proved exception.  `ParseCertificate` as a
+  whole (outer Unmarshal, names, validity, …) is still checked by the T3 oracle only (see tools/props/C20.json).
 -/
 namespace ZV.C20
 open ZV.C18
-
-theorem perm_both (s : Schema) :
-    (∀ p bs r, parseField false s p bs = .ok r → parseField true s p bs = .ok r) ∧
-    (∀ bs r, parseFields false s bs = .ok r → parseFields true s bs = .ok r) := by
-  induction s with
-  | struct fs ih =>
-    refine ⟨?_, fun bs r h => by simp [parseFields] at h⟩
-    intro p bs r h
-    simp only [parseField] at h ⊢
-    by_cases hb : bs.isEmpty = true
-    · rw [if_pos hb] at h ⊢; exact h
-    · rw [if_neg hb] at h ⊢
-      obtain ⟨hf, hg, hd⟩ := parsePre_perm (.struct fs) p bs
-      cases hp : parsePre false (.struct fs) p bs with
-      | err => simp [hp] at h
-      | dflt => rw [hd hp]; simpa [hp] using h
-      | flag r' => rw [hf r' hp]; simpa [hp] using h
-      | go t u inner rest =>
-        rw [hg t u inner rest hp]
-        simp only [hp] at h ⊢
-        cases hfs : parseFields false fs inner with
-        | ok x => rw [ih.2 _ _ hfs]; simpa [hfs] using h
-        | err => simp [hfs] at h
-        | panic => simp [hfs] at h
-  | seqOf sn e ih =>
-    refine ⟨?_, fun bs r h => by simp [parseFields] at h⟩
-    intro p bs r h
-    simp only [parseField] at h ⊢
-    by_cases hb : bs.isEmpty = true
-    · rw [if_pos hb] at h ⊢; exact h
-    · rw [if_neg hb] at h ⊢
-      obtain ⟨hf, hg, hd⟩ := parsePre_perm (.seqOf sn e) p bs
-      cases hp : parsePre false (.seqOf sn e) p bs with
-      | err => simp [hp] at h
-      | dflt => rw [hd hp]; simpa [hp] using h
-      | flag r' => rw [hf r' hp]; simpa [hp] using h
-      | go t u inner rest =>
-        rw [hg t u inner rest hp]
-        simp only [hp] at h ⊢
-        cases hu : univ e with
-        | none => simp [hu] at h
-        | some x =>
-          obtain ⟨ma, et, ec⟩ := x
-          simp only [hu] at h ⊢
-          cases hc : countElems false ma et ec inner.length inner with
-          | err => simp [hc] at h
-          | panic => simp [hc] at h
-          | ok n =>
-            rw [countElems_perm _ _ _ _ _ _ hc]
-            simp only [hc] at h ⊢
-            cases hpe : parseElems (fun b => parseField false e {} b) n inner with
-            | ok vs =>
-              rw [parseElems_perm _ (fun b => parseField true e {} b) (fun bs r hh => ih.1 {} bs r hh) n inner vs hpe]
-              simpa [hpe] using h
-            | err => simp [hpe] at h
-            | panic => simp [hpe] at h
-  | fnil =>
-    refine ⟨fun p bs r h => by simp [parseField] at h, fun bs r h => ?_⟩
-    simpa [parseFields] using h
-  | fcons p s rest ihs ihr =>
-    refine ⟨fun p bs r h => by simp [parseField] at h, fun bs r h => ?_⟩
-    simp only [parseFields] at h ⊢
-    cases h1 : parseField false s p bs with
-    | ok x =>
-      obtain ⟨v, r1⟩ := x
-      rw [ihs.1 _ _ _ h1]
-      simp only [h1] at h ⊢
-      cases h2 : parseFields false rest r1 with
-      | ok y => rw [ihr.2 _ _ h2]; simpa [h2] using h
-      | err => simp [h2] at h
-      | panic => simp [h2] at h
-    | err => simp [h1] at h
-    | panic => simp [h1] at h
-  | _ =>
-    refine ⟨?_, fun bs r h => by simp [parseFields] at h⟩
-    intro p bs r h
-    simp only [parseField] at h ⊢
-    exact primField_perm _ p bs r h
 
 /-- **C20, asn1 level**: strict success implies permissive success with the identical `(value, rest)`;
     for every Go type (schema), every field-parameter string and every input. -/
@@ -216,5 +142,179 @@ theorem perm_extends_time_field (p : Params) (bs : Bytes) (r : ZV.Time.GoTime ×
               simp only [hb] at h
               simp only [hb']
               exact h
+
+/-! ## x509 level: the sites of the flag in `x509/x509.go` (models `ZV.Model.C20X`, T2 ops `c20 xpk / xgn / xpc / xsch`)
+
+  Every theorem has the form "strict = ok v → permissive = ok v" for ALL inputs.  For the element functions of loops the
+  result is `(accumulators, continue?)`; `(r, true)` is the non-error outcome.  Opaque sub-parsers are universally
+  quantified under `X.Sub.Conservative` (each sub-parser is itself conservative), the non-RSA arms of `parsePublicKey`
+  under the same hypothesis `hother`. -/
+
+/-- the trivially conservative sub-parsers (hypotheses of the theorems below are satisfiable) -/
+def subExample : X.Sub := { tor := fun _ _ => none, sct := fun _ _ => (0, true), qcParse := fun _ _ => some () }
+example : subExample.Conservative := ⟨fun _ _ h => h, fun _ _ h => h, fun _ h => h⟩
+
+/-- SITE parsePublicKey/0 — the RSA arm -/
+theorem perm_extends_parsePublicKeyRSA (bs : Bytes) (k : X.Key) (h : X.parsePublicKeyRSA false bs = .ok k) :
+    X.parsePublicKeyRSA true bs = .ok k := X.parsePublicKeyRSA_perm bs k h
+
+/-- SITE parsePublicKey/0 — `parsePublicKey` with the other algorithms opaque -/
+theorem perm_extends_parsePublicKey (other : Bool → Nat → Bytes → Res X.Key)
+    (hother : ∀ algo bs k, other false algo bs = .ok k → other true algo bs = .ok k) (algo : Nat) (bs : Bytes) (k : X.Key)
+    (h : X.parsePublicKey other false algo bs = .ok k) : X.parsePublicKey other true algo bs = .ok k := by
+  unfold X.parsePublicKey at h ⊢
+  split_ifs at h ⊢
+  · exact X.parsePublicKeyRSA_perm bs k h
+  · exact hother _ _ _ h
+
+example : X.parsePublicKeyRSA false [0x30, 6, 2, 1, 5, 2, 1, 3] = .ok (.rsa 5 3) := by decide
+
+/-- proper extension: modulus 0 is rejected strictly and accepted permissively -/
+theorem perm_strictly_more_parsePublicKey :
+    X.parsePublicKeyRSA false [0x30, 6, 2, 1, 0, 2, 1, 3] = .err ∧
+    X.parsePublicKeyRSA true [0x30, 6, 2, 1, 0, 2, 1, 3] = .ok (.rsa 0 3) := by decide
+
+/-- SITES parseGeneralNames/0 … /4 — the body of `switch v.Tag` -/
+theorem perm_extends_gnElem (v : Val) (tag : Nat) (inner full : Bytes) (acc r : X.GN)
+    (h : X.gnElem false v tag inner full acc = (r, true)) : X.gnElem true v tag inner full acc = (r, true) :=
+  X.gnElem_perm v tag inner full acc r h
+
+/-- `parseGeneralNames` as a whole: strict success implies permissive success with identical lists
+    (and an empty `failedToParse`, which only the permissive branches fill) -/
+theorem perm_extends_parseGeneralNames (value : Bytes) (r : X.GN) (h : X.parseGeneralNames false value = (r, true)) :
+    X.parseGeneralNames true value = (r, true) := X.parseGeneralNames_perm value r h
+
+example : X.parseGeneralNames false [0x30, 6, 0x87, 4, 192, 168, 0, 1] = ({ ip := [[192, 168, 0, 1]] }, true) := by decide
+
+/-- proper extension: an iPAddress of length 1 (SITE parseGeneralNames/3) -/
+theorem perm_strictly_more_parseGeneralNames :
+    (X.parseGeneralNames false [0x30, 3, 0x87, 1, 5]).2 = false ∧
+    X.parseGeneralNames true [0x30, 3, 0x87, 1, 5] = ({ failed := [.raw 2 7 false [5] [0x87, 1, 5]] }, true) := by decide
+
+/-- SITES parseCertificate/3 … /6 -/
+theorem perm_extends_ncPermitted (st : Val) (acc r : List X.NCE) (h : X.ncPermitted false st acc = (r, true)) :
+    X.ncPermitted true st acc = (r, true) := X.ncPermitted_perm st acc r h
+/-- SITES parseCertificate/7 … /10 -/
+theorem perm_extends_ncExcluded (st : Val) (acc r : List X.NCE) (h : X.ncExcluded false st acc = (r, true)) :
+    X.ncExcluded true st acc = (r, true) := X.ncExcluded_perm st acc r h
+/-- SITE parseCertificate/12 -/
+theorem perm_extends_dpLoop (f : Nat) (bs : Bytes) (acc r : List Bytes) (h : X.dpLoop false f bs acc = (r, true)) :
+    X.dpLoop true f bs acc = (r, true) := X.dpLoop_perm f bs acc r h
+/-- SITE parseCertificate/17 -/
+theorem perm_extends_qualNotice (qid : List Int) (qfull : Bytes) (acc r : X.Pol) (h : X.qualNotice false qid qfull acc = (r, true)) :
+    X.qualNotice true qid qfull acc = (r, true) := X.qualNotice_perm qid qfull acc r h
+/-- SITE parseCertificate/18 -/
+theorem perm_extends_qualCPS (qid : List Int) (qfull : Bytes) (acc r : X.Pol) (h : X.qualCPS false qid qfull acc = (r, true)) :
+    X.qualCPS true qid qfull acc = (r, true) := X.qualCPS_perm qid qfull acc r h
+
+/-- ALL sites of parseCertificate (0 … 25): one iteration of the extension loop -/
+theorem perm_extends_extStep (sub : X.Sub) (hs : sub.Conservative) (e : X.Ext) (out o : X.Cert)
+    (h : X.extStep sub false e out = .ok o) : X.extStep sub true e out = .ok o := X.extStep_perm sub hs e out o h
+
+/-- the extension loop -/
+theorem perm_extends_parseExts (sub : X.Sub) (hs : sub.Conservative) (es : List X.Ext) (out o : X.Cert)
+    (h : X.parseExts sub false es out = .ok o) : X.parseExts sub true es out = .ok o := X.parseExts_perm sub hs es out o h
+
+example : X.extStep subExample false ⟨[2, 5, 29, 14], false, [4, 2, 7, 8]⟩ {} = .ok { ski := .bytes [7, 8] } := by decide
+
+/-- proper extension at the certificate level: a malformed precertificate poison (SITE parseCertificate/21) and a
+    subjectKeyId whose length is not minimally encoded (SITE parseCertificate/15 over SITE asn1 parseTagAndLength/0) -/
+theorem perm_strictly_more_extStep :
+    X.extStep subExample false ⟨X.oidPoison, true, [5, 1, 0]⟩ {} = .err ∧
+    X.extStep subExample true ⟨X.oidPoison, true, [5, 1, 0]⟩ {} = .ok {} ∧
+    X.extStep subExample false ⟨[2, 5, 29, 14], false, [4, 0x81, 1, 7]⟩ {} = .err ∧
+    X.extStep subExample true ⟨[2, 5, 29, 14], false, [4, 0x81, 1, 7]⟩ {} = .ok { ski := .bytes [7] } := by decide
+
+/-- **C20, certificate level, composed**: for the result fields of `X.Cert` — PublicKey, the SAN / IAN lists and
+    FailedToParseNames, name constraints, CRL distribution points, authority / subject key ids, extended key usages,
+    policies, AIA, SCT count, IsPrecert, Tor descriptors, CABF organisation id, QCStatements — strict success implies
+    permissive success with the identical value.  EXCEPTION (finding D31, below): KeyUsage, BasicConstraints*, SelfSigned /
+    ValidationLevel are not fields of `X.Cert`. -/
+theorem perm_extends_parseCertificate (other : Bool → Nat → Bytes → Res X.Key)
+    (hother : ∀ algo bs k, other false algo bs = .ok k → other true algo bs = .ok k) (sub : X.Sub) (hs : sub.Conservative)
+    (algo : Nat) (keyData : Bytes) (exts : List X.Ext) (c : X.Cert)
+    (h : X.parseCertificate other sub false algo keyData exts = .ok c) :
+    X.parseCertificate other sub true algo keyData exts = .ok c := by
+  unfold X.parseCertificate at h ⊢
+  cases hk : X.parsePublicKey other false algo keyData with
+  | ok k =>
+    rw [perm_extends_parsePublicKey other hother algo keyData k hk]
+    simp only [hk] at h ⊢
+    exact X.parseExts_perm sub hs exts _ c h
+  | err => simp [hk] at h
+  | panic => simp [hk] at h
+
+example : X.parseCertificate (fun _ _ _ => .err) subExample false 1 [0x30, 6, 2, 1, 5, 2, 1, 3] [⟨[2, 5, 29, 14], false, [4, 1, 9]⟩]
+    = .ok { key := some (.rsa 5 3), ski := .bytes [9] } := by decide
+
+/-- **finding D31 carried as the explicit exception**: the keyUsage step swallows the asn1 error in both modes, so a
+    body that only the permissive mode can read (non-minimal length) gives two DIFFERENT successful results -/
+example : X.kuStep false [3, 0x81, 2, 5, 0xa0] (.bits [] 0) = .bits [] 0 ∧
+    X.kuStep true [3, 0x81, 2, 5, 0xa0] (.bits [] 0) = .bits [0xa0] 3 := by decide
+
+theorem d31_keyUsage_not_conservative : ∃ v ku, X.kuStep false v ku ≠ X.kuStep true v ku :=
+  ⟨[3, 0x81, 2, 5, 0xa0], .bits [] 0, by decide⟩
+
+/-! ### every x509.go site of the inventory has a named model and theorem -/
+
+/-- a site of the flag, the Lean function that models the enclosing decision, and its conservativity statement with proof -/
+structure SiteModel where
+  site : Site
+  model : String
+  thm : String
+  stmt : Prop
+  proof : stmt
+
+def ExtStmt (oid : List Int) : Prop :=
+  ∀ (sub : X.Sub), sub.Conservative → ∀ (e : X.Ext) (out o : X.Cert), e.id = oid →
+    X.extStep sub false e out = .ok o → X.extStep sub true e out = .ok o
+theorem extStmt (oid : List Int) : ExtStmt oid := fun sub hs e out o _ h => X.extStep_perm sub hs e out o h
+
+def GnStmt (tag : Nat) : Prop :=
+  ∀ (v : Val) (inner full : Bytes) (acc r : X.GN), X.gnElem false v tag inner full acc = (r, true) → X.gnElem true v tag inner full acc = (r, true)
+theorem gnStmt (tag : Nat) : GnStmt tag := fun v inner full acc r h => X.gnElem_perm v tag inner full acc r h
+
+def NcpStmt : Prop := ∀ st acc r, X.ncPermitted false st acc = (r, true) → X.ncPermitted true st acc = (r, true)
+def NcxStmt : Prop := ∀ st acc r, X.ncExcluded false st acc = (r, true) → X.ncExcluded true st acc = (r, true)
+
+def pcSite (n : Nat) (pol : String) (oid : List Int) : SiteModel :=
+  ⟨("x509.go", "parseCertificate", n, pol), "X.extStep", "perm_extends_extStep", ExtStmt oid, extStmt oid⟩
+def ncpSite (n : Nat) (pol : String) : SiteModel :=
+  ⟨("x509.go", "parseCertificate", n, pol), "X.ncPermitted", "perm_extends_ncPermitted", NcpStmt, X.ncPermitted_perm⟩
+def ncxSite (n : Nat) (pol : String) : SiteModel :=
+  ⟨("x509.go", "parseCertificate", n, pol), "X.ncExcluded", "perm_extends_ncExcluded", NcxStmt, X.ncExcluded_perm⟩
+def gnSite (n : Nat) (pol : String) (tag : Nat) : SiteModel :=
+  ⟨("x509.go", "parseGeneralNames", n, pol), "X.gnElem", "perm_extends_gnElem", GnStmt tag, gnStmt tag⟩
+
+def siteModels : List SiteModel := [
+  ⟨("x509.go", "parsePublicKey", 0, "strict-guard"), "X.parsePublicKeyRSA", "perm_extends_parsePublicKeyRSA",
+    ∀ bs k, X.parsePublicKeyRSA false bs = .ok k → X.parsePublicKeyRSA true bs = .ok k, X.parsePublicKeyRSA_perm⟩,
+  gnSite 0 "perm-guard/on-error" 0, gnSite 1 "perm-guard/on-error" 4, gnSite 2 "perm-guard/on-error" 5,
+  gnSite 3 "other:if-else/perm-then/else-rejects" 7, gnSite 4 "perm-guard/on-error" 8,
+  pcSite 0 "perm-guard/on-error" [2, 5, 29, 17], pcSite 1 "perm-guard/on-error" [2, 5, 29, 18],
+  pcSite 2 "perm-guard/on-error" [2, 5, 29, 30],
+  ncpSite 3 "perm-guard/on-error", ncpSite 4 "perm-guard/on-error", ncpSite 5 "strict-guard", ncpSite 6 "perm-guard/on-error",
+  ncxSite 7 "perm-guard/on-error", ncxSite 8 "perm-guard/on-error", ncxSite 9 "strict-guard", ncxSite 10 "perm-guard/on-error",
+  pcSite 11 "perm-guard/on-error" [2, 5, 29, 31],
+  ⟨("x509.go", "parseCertificate", 12, "perm-guard/on-error"), "X.dpLoop", "perm_extends_dpLoop",
+    ∀ f bs acc r, X.dpLoop false f bs acc = (r, true) → X.dpLoop true f bs acc = (r, true), X.dpLoop_perm⟩,
+  pcSite 13 "perm-guard/on-error" [2, 5, 29, 35], pcSite 14 "strict-guard" [2, 5, 29, 37],
+  pcSite 15 "perm-guard/on-error" [2, 5, 29, 14], pcSite 16 "perm-guard/on-error" [2, 5, 29, 32],
+  ⟨("x509.go", "parseCertificate", 17, "strict-guard"), "X.qualNotice", "perm_extends_qualNotice",
+    ∀ qid qfull acc r, X.qualNotice false qid qfull acc = (r, true) → X.qualNotice true qid qfull acc = (r, true), X.qualNotice_perm⟩,
+  ⟨("x509.go", "parseCertificate", 18, "strict-guard"), "X.qualCPS", "perm_extends_qualCPS",
+    ∀ qid qfull acc r, X.qualCPS false qid qfull acc = (r, true) → X.qualCPS true qid qfull acc = (r, true), X.qualCPS_perm⟩,
+  pcSite 19 "perm-guard/on-error" X.oidAIA, pcSite 20 "perm-guard/on-error" X.oidSCT, pcSite 21 "strict-guard" X.oidPoison,
+  pcSite 22 "perm-guard/on-error" X.oidTor, pcSite 23 "perm-guard/on-error" X.oidCABF,
+  pcSite 24 "perm-guard/on-error" X.oidQC, pcSite 25 "perm-guard/on-error" X.oidQC]
+
+/-- **T1 link**: every `x509.go` entry of the inventory extracted from the current tree is the site of exactly the
+    named models above (each of which carries its proved conservativity statement); a new, moved or re-shaped use of the
+    flag in x509.go breaks this theorem until a model and a theorem are supplied for it -/
+theorem x509_sites_modelled :
+    (ZV.Generated.C20.permissiveSites.filter (fun s => s.1 == "x509.go")) = siteModels.map (·.site) := by decide
+
+/-- and they are the `x509Sites` of the accounted inventory -/
+theorem x509_sites_are_accounted : siteModels.map (·.site) = x509Sites := by decide
 
 end ZV.C20
